@@ -36,10 +36,12 @@ def z_configs(tier):
                     sh = rng.integers(-2, 3, (n, 3)) * np.array(pbc)[None, :]
                     pos = (np.array(pos) + sh @ np.array(cell)).tolist()
                 thr2x2 = int([1, 3, 5, 9, 13, 19][(ci + pi + k) % 6])
-                if k == 0:
+                if k == 0 and not any(pbc):
                     # the unrotated, unscaled frame is exact in floating point: thresholds 1, 2, 3 (thr2x2 = 2 thr^2 even) put
-                    # lattice neighbours EXACTLY at the threshold - "distance minus radii <= threshold" bonds them
-                    thr2x2 = int([2, 8, 18][(ci + pi) % 3])
+                    # lattice neighbours EXACTLY at the threshold - "distance minus radii <= threshold" bonds them.  Only for
+                    # entirely non-periodic inputs: with a periodic direction get_dimensionality first wraps the atoms into
+                    # the cell (floating point), after which an exact tie is decided by rounding
+                    thr2x2 = int([2, 8, 18][ci % 3])
                 out.append({"cellname": name, "cell": cell, "pbc": list(pbc), "pos": pos, "thr2x2": thr2x2, "k": k})
     return out
 
